@@ -207,14 +207,62 @@ pub fn check_env(case: &EnvCase) -> CaseResult {
     }
 }
 
+#[derive(Debug, Clone, Serialize, Deserialize)]
+pub struct EnvSeqCase {
+    /// environments visited one after the other inside ONE process
+    pub envs: Vec<BTreeMap<String, String>>,
+    pub templates: Vec<String>,
+}
+
+/// The environment changes while the process lives: every expansion uses the environment of that moment
+pub fn check_env_seq(case: &EnvSeqCase) -> CaseResult {
+    let mut reqs = vec![];
+    let mut at: Vec<(usize, usize, usize)> = vec![]; // (stage, template, request index)
+    let mut cur = case.envs[0].clone();
+    for (si, e) in case.envs.iter().enumerate() {
+        if si > 0 {
+            for k in ["HOME", "V1", "V2"] {
+                match (cur.get(k), e.get(k)) {
+                    (_, Some(v)) => reqs.push(json!({"op":"setenv","k":k,"v":v})),
+                    (Some(_), None) => reqs.push(json!({"op":"unsetenv","k":k})),
+                    (None, None) => {},
+                }
+            }
+            cur = e.clone();
+        }
+        for (ti, t) in case.templates.iter().enumerate() {
+            at.push((si, ti, reqs.len()));
+            reqs.push(json!({"op":"expand","s":t}));
+            reqs.push(json!({"op":"expand_ext","s":t}));
+        }
+    }
+    let resp = match probe(&case.envs[0], &reqs) {
+        Ok(r) => r,
+        Err(e) => {
+            ctx().inconclusive(&format!("envprobe child failed: {}", e));
+            return Ok(());
+        },
+    };
+    for (si, ti, ri) in at {
+        if let Err(mut f) = check_one(&case.envs[si], &case.templates[ti], &resp[ri], &resp[ri + 1]) {
+            if si > 0 {
+                f.sig = format!("{}|after-environment-change", f.sig);
+                f.detail = format!("{} (stage {} of the environment sequence {:?})", f.detail, si + 1, case.envs);
+            }
+            return Err(f);
+        }
+    }
+    Ok(())
+}
+
 pub fn run(c: &Ctx) {
-    c.set_rule("environments: HOME, V1, V2 each in {unset, empty, plain, 'a/b', '/abs/x', 'has space'} (216; quick: a seeded stratified 40), one child process per environment started with env_clear(); templates: a fixed table of error shapes and pinned examples plus seeded samples from the grammar (prefix '', '/', '~/', './' + 1-3 components of <=3 atoms in {literal, $V, ${V}} in every position). Oracle: reference expansion written from the statement (component-level equality; textual and PathBuf::push reading both admitted for a substituted absolute value). Non-trivial = template with >=2 expansions or an error shape; distinct by (environment, template).");
+    c.set_rule("environments: HOME, V1, V2 each in {unset, empty, plain, 'a/b', '/abs/x', 'has space'} (216; quick: a seeded stratified 100), one child process per environment started with env_clear(); templates: a fixed table of error shapes and pinned examples plus seeded samples from the grammar (prefix '', '/', '~/', './' + 1-3 components of <=3 atoms in {literal, $V, ${V}} in every position). Oracle: reference expansion written from the statement (component-level equality; textual and PathBuf::push reading both admitted for a substituted absolute value). Non-trivial = template with >=2 expansions or an error shape; distinct by (environment, template). Plus histories over environments: 400 (quick) / 4000 (thorough) seeded sequences of 4 environments visited inside ONE child process (setenv/unsetenv between stages), 8 templates per stage, same oracle against the environment of that moment (non-trivial = HOME differs between two consecutive stages).");
     c.assume("templates outside the documented grammar ('$V' followed by a literal, unterminated '${', stray braces) are only required not to panic");
     let envs = all_envs();
     let comps = components(3);
     c.note("grammar_components", comps.len());
-    let n_envs = c.tier.pick(40, envs.len());
-    let per_env = c.tier.pick(400, 3000);
+    let n_envs = c.tier.pick(100, envs.len());
+    let per_env = c.tier.pick(1000, 3000);
     // stratified: always the all-unset and all-set environments, the rest seeded
     let mut chosen: Vec<usize> = vec![0, envs.len() - 1, 2 * 36 + 2 * 6 + 2, 4 * 36 + 3 * 6 + 5, 36 + 6 + 1];
     let mut i = 0u64;
@@ -241,10 +289,32 @@ pub fn run(c: &Ctx) {
         let _ = check_env(&case);
     });
     c.note("environments", chosen.len());
+    // histories over environments: 4 environments visited inside one process
+    let n_seq = c.tier.pick(400u64, 4000);
+    let seq_templates: Vec<String> = ["~", "~/x", "$HOME/y", "${HOME}", "${V1}", "$V1/$V2", "a/$V2", "~/$V1"].iter().map(|s| s.to_string()).collect();
+    par_for(n_seq, 1, |j| {
+        let mut es = vec![];
+        for k in 0..4u64 {
+            es.push(envs[(splitmix(c.seed ^ splitmix(1750 + j * 4 + k)) % envs.len() as u64) as usize].clone());
+        }
+        let case = EnvSeqCase { envs: es, templates: seq_templates.clone() };
+        mark("expand-env-seq", &serde_json::to_string(&case.envs).unwrap());
+        c.eval((case.envs.len() * case.templates.len()) as u64);
+        c.class("environment-changes-within-process");
+        if case.envs.windows(2).any(|w| w[0].get("HOME") != w[1].get("HOME")) {
+            c.nontrivial(fp(&case.envs));
+        }
+        if j % 37 == 0 {
+            c.sample(|| json!({"kind":"expand-env-seq","envs":case.envs}));
+        }
+        c.judge("expand-env-seq", &case, check_env_seq(&case));
+    });
+    c.note("environment_sequences", n_seq);
 }
 
 pub fn replay(kind: &str, case: &Value) -> Option<CaseResult> {
     match kind {
+        "expand-env-seq" => Some(check_env_seq(&serde_json::from_value(case.clone()).ok()?)),
         "expand-env" => {
             let case: EnvCase = serde_json::from_value(case.clone()).ok()?;
             // check_env judges internally; report the first non-known failure
